@@ -162,7 +162,8 @@ def run_c17(ctx):
     nrep = 60 if not ctx.thorough else 400
     rdir = os.path.join(vlib.BUILD, "report-%d" % os.getpid())
     rcases = [(lim, segs, (i % 5 != 4)) for i, (lim, segs) in enumerate(mcases[:nrep])]
-    rlines = ["report %s %d %s" % (rdir if withdir else "-", lim, "|".join(",".join(s) for s in segs)) for lim, segs, withdir in rcases]
+    # one scratch directory PER CASE: the lines are sharded over several harness processes that run side by side
+    rlines = ["report %s %d %s" % ("%s-%d" % (rdir, i) if withdir else "-", lim, "|".join(",".join(s) for s in segs)) for i, (lim, segs, withdir) in enumerate(rcases)]
     rout = vlib.run_impl(rlines)
     ctx.evaluations += len(rlines)
     for (lim, segs, withdir), lr, lmerge, line in zip(rcases, rout, impl, rlines):
